@@ -50,6 +50,12 @@ type ChildCase struct {
 	// program: 1 = "ret ALLOW" everywhere, 2 = zero words (refused by the kernel), 3 = collections only.
 	// Correct code is unaffected (the program stays reachable until the kernel has copied it).
 	GCSpray int `json:"gc_spray,omitempty"`
+	// PidNamespace: the child is process 1 of a new PID namespace with its own /proc (unshare -p -f --mount-proc): its main
+	// thread has thread id 1. Not combined with strace (the tracer would be process 1).
+	PidNamespace bool `json:"pid_namespace,omitempty"`
+	// NoProc: the child runs in a private mount namespace from which /proc has been detached (state snapshots are then
+	// empty; only what the probes observe is judged).
+	NoProc bool `json:"no_proc,omitempty"`
 
 	// Raw: rawload mode hands this program (code, jt, jf, k) to seccomp(2) directly.
 	Raw [][4]uint32 `json:"raw,omitempty"`
@@ -70,6 +76,8 @@ type HistoryCase struct {
 	Calls    []LoadCall            `json:"calls"`
 	Policies map[string]PolicySpec `json:"policies"` // by kind
 	Probes   []uint64              `json:"probes"`   // probe syscall numbers issued on every thread after every call
+	// MainThreadIsWorker0: thread 0 of the history is the process's main thread (the child keeps its main goroutine on it)
+	MainThreadIsWorker0 bool `json:"main_thread_is_worker0,omitempty"`
 }
 
 // ConcCase: load calls issued concurrently by several pinned threads (C09, checked for linearizability).
@@ -261,6 +269,11 @@ func RunChild(bin, mode string, c *ChildCase, strace bool, timeout time.Duration
 	} else {
 		cmd = exec.Command(bin, mode, casePath)
 	}
+	if c.PidNamespace && !strace {
+		cmd = exec.Command("/usr/bin/unshare", append([]string{"-p", "-f", "--mount-proc", "--kill-child"}, cmd.Args...)...)
+	} else if c.NoProc {
+		cmd = exec.Command("/usr/bin/unshare", append([]string{"-m", "--propagation", "private", "/bin/sh", "-c", `/bin/umount -l /proc || exit 71; exec "$@"`, "sh"}, cmd.Args...)...)
+	}
 	var so, se bytes.Buffer
 	cmd.Stdout, cmd.Stderr = &so, &se
 	cmd.Env = append(os.Environ(), "GOTRACEBACK=single")
@@ -268,6 +281,9 @@ func RunChild(bin, mode string, c *ChildCase, strace bool, timeout time.Duration
 		cmd.Env = append(os.Environ(), "GOTRACEBACK=system")
 	}
 	cmd.Env = append(cmd.Env, c.Env...)
+	if c.History != nil && c.History.MainThreadIsWorker0 {
+		cmd.Env = append(cmd.Env, "VCHILD_LOCK_MAIN=1")
+	}
 	if c.NNPCase != nil && c.NNPCase.PresetOnMain {
 		cmd.Env = append(cmd.Env, "VCHILD_LOCK_MAIN=1") // keeps the main goroutine on the main thread
 	}
